@@ -23,6 +23,11 @@ def parseFlow (s : String) : Option FlowRule := match nums s with
     some { id, res, tcs, cb, thr, rel, ref, maxQ, period, cf, statIv }
   | _ => none
 
+def parseHot (s : String) : Option HotRule := match nums s with
+  | some [id, res, mtype, cb, pidx, thr, maxQ, burst, dur, cap, items, sval, sthr] =>
+    some { id, res, mtype, cb, pidx, thr, maxQ, burst, dur, cap, items, sval, sthr }
+  | _ => none
+
 def parseList {α} (p : String → Option α) (s : String) : Option (List α) :=
   if s == "-" then some [] else (s.splitOn ",").mapM p
 
@@ -31,6 +36,8 @@ def cbSupported (r : CbRule) : Bool := r.strat == 1 || r.strat == 2
 def flowSupported (r : FlowRule) : Bool :=
   r.rel == 0 && r.ref == 0 && (r.tcs == 0 || (r.tcs == 1 && r.cb == 0 && r.thr > 0))
 
+def hotSupported (r : HotRule) : Bool := r.mtype == 1 && r.cb == 0 && r.pidx == 0 && r.items != 1
+def hotInert (r : HotRule) : Bool := r.cb == 0 && r.thr ≥ bigThr && (r.items != 2 || r.sthr ≥ bigThr)
 def cbInert (r : CbRule) : Bool := r.strat == 2 && r.thr ≥ bigThr
 def flowInert (r : FlowRule) : Bool := r.tcs == 0 && r.cb == 0 && r.thr ≥ bigThr
 
@@ -43,12 +50,14 @@ deriving Repr
 structure St where
   cb : Mgr CbRule CbSt := Mgr.empty
   flow : Mgr FlowRule FlowSt := Mgr.empty
+  hot : Mgr HotRule HotSt := Mgr.empty
   now : Nat := 1900000000000     -- every phase starts at the same virtual time
   nodes : List (Nat × Sentinel.LA.Arr Nat) := []     -- resource nodes: pass counts (20 × 500 ms)
   -- oracle side
   phaseB : Bool := false
   cbRaw : List (Nat × List CbRule) := []       -- what the caller passed last for each resource (valid rules)
   flowRaw : List (Nat × List FlowRule) := []
+  hotRaw : List (Nat × List HotRule) := []
   flags : List (Nat × Flags) := []
   reloaded : Bool := false
   allUnclaimed : Bool := false
@@ -61,7 +70,7 @@ def assoc {α} (xs : List (Nat × α)) (k : Nat) (v : α) : List (Nat × α) := 
 def nodeOf (s : St) (x : Nat) : Sentinel.LA.Arr Nat := lookup (Sentinel.LA.mk 20 500 s.now) s.nodes x
 
 /-- one entry (with its completion) on resource `x` -/
-def entry (s : St) (x : Nat) (err : Bool) : St × String :=
+def entry (s : St) (x : Nat) (err : Bool) (arg : Nat) : St × String :=
   let node := nodeOf s x
   let s := { s with nodes := assoc s.nodes x node }
   let (fb, w, fcs) := flowScan s.now (flowRead node s.now) (s.flow.ctls x)
@@ -69,6 +78,11 @@ def entry (s : St) (x : Nat) (err : Bool) : St × String :=
   match fb with
   | some id => (s, s!"block flow {id}")
   | none =>
+    let (hb, hcs) := if arg = 0 then (none, s.hot.ctls x) else hotScan s.now arg (s.hot.ctls x)
+    let s := { s with hot := s.hot.set x hcs }
+    match hb with
+    | some id => (s, s!"block hot {id}")
+    | none =>
     let (cbb, ccs) := cbCheck s.now (s.cb.ctls x)
     match cbb with
     | some id => ({ s with cb := s.cb.set x ccs }, s!"block cb {id}")
@@ -83,6 +97,7 @@ def entry (s : St) (x : Nat) (err : Bool) : St × String :=
 /-- oracle bookkeeping for one reload of a module: per resource, was the list left unchanged (inert rules aside),
     and does the `NoSteal` hypothesis hold -/
 def judgeReload {R S} [DecidableEq R] (K : Calc R S) (valid : R → Bool) (res : R → Nat) (inert : R → Bool)
+    (warmKey : Bool)
     (m : Mgr R S) (raw : List (Nat × List R)) (rules : List R) (only : Option Nat) (fl : List (Nat × Flags)) :
     List (Nat × Flags) × List (Nat × List R) :=
   let xs := match only with
@@ -95,7 +110,8 @@ def judgeReload {R S} [DecidableEq R] (K : Calc R S) (valid : R → Bool) (res :
     let same := decide (n.filter (!inert ·) = o.filter (!inert ·))
     let f := if !same then { f with unclaimed := true } else f
     let f := if same && !noStealB K n (m.ctls x) then { f with steal := true } else f
-    let f := if same && n.any (fun r => decide (K.norm r ≠ r) && o.contains r) then { f with warm := true } else f
+    -- a rule the constructor normalises, reloaded as it was: only the flow warm-up calculator loses state by that
+    let f := if warmKey && same && n.any (fun r => decide (K.norm r ≠ r) && o.contains r) then { f with warm := true } else f
     (assoc acc.1 x f, assoc acc.2 x n)) (fl, raw)
 
 def doLoad (oracle : Bool) (s : St) (modl : String) (re : Bool) (only : Option Nat) (arg : String) : St × Option String :=
@@ -107,8 +123,8 @@ def doLoad (oracle : Bool) (s : St) (modl : String) (re : Bool) (only : Option N
     | some rules =>
       if !rules.all cbSupported then (s, some "bad-op") else
       let (fl, raw) := if oracle then
-          (if re then judgeReload cbCalc CbRule.valid (·.res) cbInert s.cb s.cbRaw rules only s.flags
-           else (s.flags, (judgeReload cbCalc CbRule.valid (·.res) cbInert s.cb s.cbRaw rules only s.flags).2))
+          (if re then judgeReload cbCalc CbRule.valid (·.res) cbInert false s.cb s.cbRaw rules only s.flags
+           else (s.flags, (judgeReload cbCalc CbRule.valid (·.res) cbInert false s.cb s.cbRaw rules only s.flags).2))
         else (s.flags, s.cbRaw)
       let m := match only with
         | none => s.cb.loadRules cbCalc CbRule.valid (·.res) s.now rules
@@ -120,13 +136,26 @@ def doLoad (oracle : Bool) (s : St) (modl : String) (re : Bool) (only : Option N
     | some rules =>
       if !rules.all flowSupported then (s, some "bad-op") else
       let (fl, raw) := if oracle then
-          (if re then judgeReload flowCalc FlowRule.valid (·.res) flowInert s.flow s.flowRaw rules only s.flags
-           else (s.flags, (judgeReload flowCalc FlowRule.valid (·.res) flowInert s.flow s.flowRaw rules only s.flags).2))
+          (if re then judgeReload flowCalc FlowRule.valid (·.res) flowInert true s.flow s.flowRaw rules only s.flags
+           else (s.flags, (judgeReload flowCalc FlowRule.valid (·.res) flowInert true s.flow s.flowRaw rules only s.flags).2))
         else (s.flags, s.flowRaw)
       let m := match only with
         | none => s.flow.loadRules flowCalc FlowRule.valid (·.res) s.now rules
         | some x => s.flow.loadRulesOfResource flowCalc FlowRule.valid (·.res) s.now x rules
       ({ s with flow := m, flags := fl, flowRaw := raw }, none)
+  else if modl == "hot" then
+    match parseList parseHot arg with
+    | none => (s, some "bad-op")
+    | some rules =>
+      if !rules.all hotSupported then (s, some "bad-op") else
+      let (fl, raw) := if oracle then
+          (if re then judgeReload hotCalc HotRule.valid (·.res) hotInert false s.hot s.hotRaw rules only s.flags
+           else (s.flags, (judgeReload hotCalc HotRule.valid (·.res) hotInert false s.hot s.hotRaw rules only s.flags).2))
+        else (s.flags, s.hotRaw)
+      let m := match only with
+        | none => s.hot.loadRules hotCalc HotRule.valid (·.res) s.now rules
+        | some x => s.hot.loadRulesOfResource hotCalc HotRule.valid (·.res) s.now x rules
+      ({ s with hot := m, flags := fl, hotRaw := raw }, none)
   else (s, some "bad-op")
 
 /-- one op on the model (no phases) -/
@@ -136,8 +165,11 @@ def stepCore (s : St) (ts : List String) : St × Option String :=
     | some t => ({ s with now := t }, none)
     | none => (s, some "bad-op")
   | ["e", x, err] => match x.toNat?, err.toNat? with
-    | some x, some err => let (s, r) := entry s x (err != 0); (s, some r)
+    | some x, some err => let (s, r) := entry s x (err != 0) 0; (s, some r)
     | _, _ => (s, some "bad-op")
+  | ["e", x, err, a] => match x.toNat?, err.toNat?, a.toNat? with
+    | some x, some err, some a => let (s, r) := entry s x (err != 0) a; (s, some r)
+    | _, _, _ => (s, some "bad-op")
   | [op, arg] =>
     match op.splitOn "." with
     | [m, "load"] => doLoad false s m false none arg
@@ -188,7 +220,7 @@ def stepOracle0 (s : St) (ts : List String) (line : String) : St × Option Strin
       if verdicts.contains 1 then (s, some "known:reuse-steals-controller")
       else if verdicts.contains 2 then (s, some "known:warmup-reload-resets")
       else (s, some "ok")
-  | ["e", x, _] =>
+  | "e" :: x :: _ =>
     let x := x.toNat?.getD 0
     let f : Flags := lookup ({} : Flags) s.flags x
     let f := if s.allUnclaimed then { f with unclaimed := true } else f
